@@ -121,6 +121,30 @@ func (w *btWorld) CompareState() string {
 		if g, wn := bt.RowsString(got.Rows), bt.RowsString(w.model.TableRows(name)); g != wn {
 			return fmt.Sprintf("table %s:\n   got  %s\n   want %s", name, g, wn)
 		}
+		// the keys the table reports as stored (SampleRowKeys with every sampling decision answered "yes") are
+		// exactly the rows that have cells: a row emptied by deletes, a filter, a dropped family or a GC pass is gone
+		wantRows := w.model.TableRows(name)
+		coins := make([]bool, len(wantRows)+8)
+		for i := range coins {
+			coins[i] = true
+		}
+		gs := w.drv.Apply(&bt.Op{Kind: "SampleRowKeys", Table: name, Coins: coins})
+		if gs.Panic != "" {
+			return "panic in SampleRowKeys: " + gs.Panic
+		}
+		if gs.Code != "OK" {
+			return fmt.Sprintf("SampleRowKeys of %s: %s %s", name, gs.Code, gs.Msg)
+		}
+		var gk, wk []string
+		for _, sm := range gs.Samples {
+			gk = append(gk, string(sm.Key))
+		}
+		for _, r := range wantRows {
+			wk = append(wk, string(r.Key))
+		}
+		if fmt.Sprintf("%q", gk) != fmt.Sprintf("%q", wk) {
+			return fmt.Sprintf("table %s: SampleRowKeys (every row sampled) reports the keys %q, the rows with cells are %q", name, gk, wk)
+		}
 		gt := w.drv.Apply(&bt.Op{Kind: "GetTable", Table: name})
 		wt := w.model.Apply(&bt.Op{Kind: "GetTable", Table: name}, nil, 0)
 		if m := bt.Compare(gt, wt); m != "" {
